@@ -114,6 +114,84 @@ theorem repaired_parser_reentrant (s : State String Brace PLoc) (sched : List Na
         = (alone (parserSys true) t (sched.count t) s.shared (s.locals t)).2 :=
   isolation (parserSys true) parserSys_repaired_readonly s sched
 
+/-! ### State reached through objects shared between parses and evaluations -/
+
+/-- Writes to fields of shared objects (the runtime provider, the runtime components attached to
+    an AST) that are allowed, justified one by one. Everything else — in particular any
+    non-atomic write inside an `Eval` method or a constructor — breaks the obligation below.
+
+    * `ECALRuntimeProvider.Mutexes` / `.MutexeOwners` in `mutexRuntime.Eval`: every access is
+      between `erp.MutexesMutex.Lock()` and `Unlock()` (lock-protected; the extractor's `+lock`
+      hint is part of the entry, so removing the lock changes the fact). Subject of C12.
+    * the five `Validate`-phase writes (`baseRuntime.validated`, `assignmentRuntime.leftSide`,
+      `letRuntime.declared`, `loopRuntime.leftInVarName`, `numberValueRuntime.numValue`): a tree
+      is validated once, by the goroutine that parsed it, before it is handed to any evaluating
+      goroutine — every `.Validate()` call site in /repo is either the recursion into children or
+      directly follows `ParseWithRuntime` on the fresh tree (host tools, `stringValueRuntime.Eval`,
+      `importRuntime.Eval`, the debugger's `InjectValue`). The values are functions of the node
+      alone and read-only afterwards. They are part of the initial state of the evaluating
+      threads, not steps of them. -/
+def allowedObjectWrites : List ObjWrite := [
+  ⟨"ECALRuntimeProvider", "MutexeOwners", "interpreter.mutexRuntime.Eval", "assign+lock"⟩,
+  ⟨"ECALRuntimeProvider", "Mutexes", "interpreter.mutexRuntime.Eval", "assign+lock"⟩,
+  ⟨"assignmentRuntime", "leftSide", "interpreter.assignmentRuntime.Validate", "assign"⟩,
+  ⟨"baseRuntime", "validated", "interpreter.baseRuntime.Validate", "assign"⟩,
+  ⟨"letRuntime", "declared", "interpreter.letRuntime.Validate", "assign"⟩,
+  ⟨"loopRuntime", "leftInVarName", "interpreter.loopRuntime.Validate", "assign"⟩,
+  ⟨"numberValueRuntime", "numValue", "interpreter.numberValueRuntime.Validate", "assign"⟩]
+
+/-- **Generated side obligation**: every write to a field of a shared object found in the source
+    is a `sync/atomic` update or one of the justified entries. -/
+theorem sharedObjectWrites_allowed :
+    ∀ w ∈ sharedObjectWrites, w.kind = "atomic" ∨ w ∈ allowedObjectWrites := by decide
+
+/-- cells (object.field / package variable) that evaluating and parsing threads may update —
+    atomically or under a lock — while they run -/
+def runPhaseCells : List String :=
+  ["interpreter.instanceCounter", "ECALRuntimeProvider.Mutexes", "ECALRuntimeProvider.MutexeOwners"]
+
+/-- **shared_ast_reentrant.** Threads that evaluate one shared, validated AST (or parse with one
+    shared provider) and write, among package-level variables and fields of shared objects,
+    only the `runPhaseCells` (`hW` — what the two generated obligations establish for the
+    source), with results that do not look at those cells (`hC`): every thread's result in
+    every interleaving equals its result alone; all other shared state is unchanged. -/
+theorem shared_ast_reentrant {V L R : Type} (sys : Sys String V L) (result : L → R)
+    (hW : WritesWithin sys (· ∈ runPhaseCells))
+    (hC : Confined sys (· ∈ runPhaseCells) result)
+    (s : State String V L) (sched : List Nat) :
+    (∀ x, x ∉ runPhaseCells → (run sys s sched).shared x = s.shared x) ∧
+    ∀ t, result ((run sys s sched).locals t)
+        = result (alone sys t (sched.count t) s.shared (s.locals t)).2 :=
+  isolation_mod sys (· ∈ runPhaseCells) result hW hC s sched
+
+/-- non-vacuity: the repaired parser model writes nothing, so it writes within `runPhaseCells` -/
+example : WritesWithin (parserSys true) (· ∈ runPhaseCells) :=
+  fun t g l x _ => parserSys_repaired_readonly t g l x (fun h => h)
+
+/-- **instance_ids_distinct.** With the counter updated atomically (`atomic.AddUint64`), for every
+    number of concurrent parses and every interleaving: the instance ids of the runtime
+    components of one parse are pairwise distinct and two parses never share an id. -/
+theorem instance_ids_distinct (g : String → Nat) (todo : Nat → Nat) (sched : List Nat) :
+    let fin := run (idSys true) ⟨g, fun t => { todo := todo t }⟩ sched
+    (∀ t, (fin.locals t).ids.Nodup) ∧
+    (∀ t t' a, t ≠ t' → a ∈ (fin.locals t).ids → a ∉ (fin.locals t').ids) := by
+  intro fin
+  have h := idsInv_run sched ⟨g, fun t => { todo := todo t }⟩
+    ⟨by intro t a ha; simp at ha, by intro t; simp, by intro t t' a _ ha; simp at ha⟩
+  exact ⟨h.2.1, h.2.2⟩
+
+/-- **nonatomic_ids_collide** (negative witness): with `counter++` on a shared field (read, then
+    write) two parses interleave so that both components get instance id 1. -/
+theorem nonatomic_ids_collide :
+    let fin := run (idSys false) ⟨fun _ => 0, fun _ => { todo := 1 }⟩ [0, 1, 0, 1]
+    (fin.locals 0).ids = [1] ∧ (fin.locals 1).ids = [1] := by decide
+
+/-- the obligation rejects the writes of such variants: a counter field of the provider
+    incremented in the constructor, a lazily filled cache map in an `Eval` method -/
+example : ¬ (∀ w ∈ [ObjWrite.mk "ECALRuntimeProvider" "instanceCounter" "interpreter.newBaseRuntime" "incdec",
+                     ObjWrite.mk "stringValueRuntime" "interpolations" "interpreter.stringValueRuntime.interpolationAST" "assign"],
+              w.kind = "atomic" ∨ w ∈ allowedObjectWrites) := by decide
+
 /-! ### Negative witnesses: the code before the repair (`parserSys false`) -/
 
 /-- two parses: thread 0 parses `if a { … }`, thread 1 parses the map literal `{1:2}` -/
